@@ -64,6 +64,10 @@ CHECKS["C19"] = dict(engine="X", technique=X, design="§4 C19",
                      text="Bounded exhaustive case analysis driven by the solver: a runtime module and a stubs module with one member slot of every kind pair (function/attribute/class/alias/absent on each side: 25 pairs, mismatches included), a class with a method on both sides, and an 8-bit solver-chosen vector deciding which docstrings, annotations, extra members and overload lists exist on which side; merged through merge_stubs in both argument orders and through set_member's implicit merge in both insertion orders. Every clause of the statement is asserted, including equality of the result across the four routes.",
                      note="Trusted: CrossHair/z3 as case splitter (the inputs are finite-domain); on-disk discovery of the three stub placements is not covered here (C14).")
 
+CHECKS["C20"] = dict(engine="X", technique=X + "; git replaced by a contract model during the symbolic run, real git in the replay", design="§4 C20",
+                     text="Bounded symbolic model checking of tmp_worktree and load_git with subprocess/TemporaryDirectory/load replaced by nondeterministic stubs: a contract model of `git worktree add/remove/prune` and `git branch -D`, a fake file system, and a load that returns or raises (LoadingError, SyntaxError, extension error, KeyboardInterrupt, ImportError) and may leave files in the checkout; the ref is a symbolic string (slashes, dots, dashes), the fault schedule one solver-chosen integer. Branch set, worktree list and temporary directories must be identical before and after; errors propagate unchanged. Counterexamples are replayed with real git in a scratch repository and the real load_git in a child interpreter with byte-code writing enabled.",
+                     note="Trusted: the git contract model (documented behaviour only); HEAD/index/working-tree are untouched by construction of the commands used and are compared only in the real-git replay.")
+
 NOT_APPLICABLE = [
     {"property_id": "C17", "reason": "static-vs-dynamic agreement needs importlib/inspect on live objects of concrete executable modules: nothing symbolic survives the import boundary, so a solver could only enumerate program texts (enumeration, not solving). See DESIGN.md §5."},
 ]
